@@ -14,6 +14,12 @@ CLAIMED = {
             "DESIGN.md §7 C14"),
 }
 
+CLAIMED["C01"] = ("exploration",
+    "runtime reference-model monitor: every operator application on live operands is compared with the finite-set model on their denotations; results cross-examined through Count/Has; callback probes observe fed elements",
+    "Operands = a seed-independent core of ~60 model values covering every shape class (strings, bytes, arrays with offsets/holes/superimposed indices, dicts incl. multi-valued keys, relations, mixed sets, {}, {()}) realised through every construction path the language offers and deduplicated by (denotation, Go representation), plus seeded random values; each left operand is combined with every right operand under | & &~ ~~ with without <: and the six subset comparisons (and negations), plus count, ^, where and => through logging native-function probes, plus chains that reuse live results. Each application is judged locally against the model on the ACTUAL denotations of its inputs; count and Has of every result are cross-examined. Exhaustive over the core pool, sampled beyond.",
+    "Trusted: the 10-line finite-set model operators, Denote (exported enumerators only). Violations inside the hazard regions listed in known-findings.json (superimposed sequences, sparse strings/bytes, multi-valued dict keys, offset string/bytes unions) are matched by hazard+mode; everything else, and any new panic site, is reported.",
+    "DESIGN.md §7 C01")
+
 NOT_YET = "check not built yet in this session (planned, see DESIGN.md §7/§12); will be claimed once its monitor is silent on the unchanged tree and catches seeded breaks"
 
 def main():
